@@ -182,3 +182,8 @@ Example C08_maps_nonvacuous :
   /\ wire_position 5000 0 0 = Ok 4 /\ pad_position 5000 24 0 1 = Ok (5, 432)
   /\ wire_to_pad_column 0 = 31 /\ pad_column_to_wires 31 = [0; 1; 2; 3; 4; 5; 6; 7].
 Proof. vm_compute. repeat split; reflexivity. Qed.
+
+(* the concrete thresholds of the current source (regenerated arms): no map before run 2941 (wires) / 4418 (pads) *)
+Theorem C08_thresholds_current : wire_first_threshold = 2941 /\ pad_first_threshold = 4418.
+Proof. split; vm_compute; reflexivity. Qed.
+Print Assumptions C08_thresholds_current.
